@@ -163,6 +163,36 @@ def recovery(rep, r, n):
                 break
 
 
+def pa_wrap_probe(rep, r, n):
+    """(S) the position angle is defined modulo pi: a galaxy whose major axis lies exactly along +x (or within rounding of it, where the
+    fitted PA alternates between ~0 and ~pi) must be modelled as well as the same galaxy turned by 0.01 rad"""
+    from photutils.isophote import Ellipse, EllipseGeometry, build_ellipse_model
+    for _ in range(n):
+        eps, r0 = r.uniform(0.25, 0.5), r.uniform(10, 14)
+        x0, y0 = 70.0 + r.uniform(-0.5, 0.5), 70.0 + r.uniform(-0.5, 0.5)
+        hh = r.random() < 0.5
+        errs = {}
+        for pa in (0.0, 0.01):
+            img, _ = galaxy((141, 141), x0, y0, eps, pa, 'exp', r0)
+            with warnings.catch_warnings():
+                warnings.simplefilter('ignore')
+                iso = Ellipse(img, EllipseGeometry(x0 + 0.5, y0 - 0.4, 12.0, eps - 0.05, pa + 0.1)).fit_image(maxsma=45)
+                if len(iso) < 8:
+                    errs = None
+                    break
+                model = build_ellipse_model(img.shape, iso, high_harmonics=hh)
+            yy, xx = np.mgrid[0:141, 0:141].astype(float)
+            c, s_ = math.cos(pa), math.sin(pa)
+            rr = np.sqrt(((xx - x0) * c + (yy - y0) * s_) ** 2 + ((-(xx - x0) * s_ + (yy - y0) * c) / (1 - eps)) ** 2)
+            region = (rr > 6) & (rr < 36)
+            errs[pa] = float(np.percentile(np.abs(model[region] - img[region]) / img[region], 95))
+        rep.case(('pawrap', eps, r0, x0, y0, hh), True, kind='model-image:pa-on-axis')
+        rep.probe_only += 1
+        if errs and errs[0.0] > 3 * errs[0.01] + 0.01:
+            rep.violation('model-image:pa-wrap', f'build_ellipse_model(high_harmonics={hh}) of a galaxy with PA = 0: 95th-percentile error {errs[0.0]:.3g}; '
+                          f'the same galaxy at PA = 0.01 rad: {errs[0.01]:.3g}', {'eps': eps, 'r0': r0, 'x0': x0, 'y0': y0, 'high_harmonics': hh})
+
+
 def polar_correspondence(rep, r, n):
     from photutils.isophote import EllipseGeometry
     drv = Driver()
@@ -268,6 +298,7 @@ def run(rep, tier):
     r = rng('C20')
     polar_correspondence(rep, r, 300 * scale)
     growth_correspondence(rep, r, 6 * scale)
+    pa_wrap_probe(rep, r, 2 * scale)
     recovery(rep, r, 6 * scale * (2 if not rep.lean.ok else 1))      # a broken proof / extraction: search longer for a failing input
 
 
